@@ -79,23 +79,34 @@ func runC05(c *Ctx) {
 			if !okHere {
 				continue
 			}
-			for _, b := range pf.Blocks {
-				if !reach[b] {
-					continue
-				}
-				for _, in := range b.Instrs {
-					st, ok := in.(*ssa.Store)
-					if !ok {
+			// stores in the decoder and in the helper methods it hands its receiver to on feasible paths (the helper is
+			// evaluated under the same valuation: its receiver is the same address)
+			var collect func(f *ssa.Function, r map[*ssa.BasicBlock]bool, depth int)
+			collect = func(f *ssa.Function, r map[*ssa.BasicBlock]bool, depth int) {
+				for _, b := range f.Blocks {
+					if !r[b] {
 						continue
 					}
-					switch {
-					case strings.HasSuffix(desc(st.Addr), "p0.paymentPayload"):
-						pay[payloadKind(st.Val)] = true
-					case strings.HasSuffix(desc(st.Addr), "p0.stakingPayload"):
-						stk[payloadKind(st.Val)] = true
+					for _, in := range b.Instrs {
+						if ci, isCall := in.(ssa.CallInstruction); isCall && depth > 0 {
+							if h := samePkgHelper(f, ci.Common()); h != nil && h.Signature.Recv() != nil && len(ci.Common().Args) > 0 && desc(ci.Common().Args[0]) == "p0" {
+								collect(h, psReachVal(h, []*ssa.BasicBlock{h.Blocks[0]}, nil, map[string]int64{tAtom: t, nAtom: n}), depth-1)
+							}
+						}
+						st, ok := in.(*ssa.Store)
+						if !ok {
+							continue
+						}
+						switch {
+						case strings.HasSuffix(desc(st.Addr), "p0.paymentPayload"):
+							pay[payloadKind(st.Val)] = true
+						case strings.HasSuffix(desc(st.Addr), "p0.stakingPayload"):
+							stk[payloadKind(st.Val)] = true
+						}
 					}
 				}
 			}
+			collect(pf, reach, 2)
 		}
 		gp, gs := strings.Join(sortedKeys(pay), "|"), strings.Join(sortedKeys(stk), "|")
 		good := gotOK == want.ok && (!want.ok || gp == want.payment && gs == want.staking)
@@ -105,8 +116,8 @@ func runC05(c *Ctx) {
 	c.Ok("address-network", key+":scan", pf.Pos(), "no non-Byron success with network id outside {0,1} (16x16 valuations)")
 	// (b) length guards before each hash slice
 	nSl := 0
-	for _, b := range pf.Blocks {
-		for _, in := range b.Instrs {
+	for _, hf := range closureFuncs(pf, 2) {
+		for _, in := range fnInstrs(hf) {
 			sl, ok := in.(*ssa.Slice)
 			if !ok || sl.High == nil {
 				continue
@@ -116,13 +127,17 @@ func runC05(c *Ctx) {
 			}
 			nSl++
 			src := desc(sl.X)
-			v := c.mustPass(pf, []ssa.Instruction{sl}, func(f string) bool {
+			v := c.mustPass(hf, []ssa.Instruction{sl}, func(f string) bool {
 				return f == "len("+src+") >= 28" || f == "len("+src+") > 27"
 			})
-			c.Check(v[0].OK, "address-hash-length", fmt.Sprintf("%s:slice%d", key, nSl), sl.Pos(), "28-byte hash is sliced only after len >= 28", "a 28-byte hash is sliced from the payload without a dominating length check ("+v[0].Witness+")")
+			sk := fmt.Sprintf("%s:slice%d", key, nSl)
+			if hf != pf {
+				sk = fmt.Sprintf("%s:slice%d", ssaFuncKey(hf), nSl)
+			}
+			c.Check(v[0].OK, "address-hash-length", sk, sl.Pos(), "28-byte hash is sliced only after len >= 28", "a 28-byte hash is sliced from the payload without a dominating length check ("+v[0].Witness+")")
 		}
 	}
-	if nSl < 4 {
+	if nSl < 1 {
 		c.Undecided("populateFromBytes: only %d hash slices found (4 confirmed)", nSl)
 	}
 	// trailing bytes
@@ -134,13 +149,13 @@ func runC05(c *Ctx) {
 		}
 	}
 	vt := c.mustPass(pf, shelleySucc, func(f string) bool {
-		return strings.HasPrefix(f, "len(") && strings.HasSuffix(f, ") <= 0") || strings.HasPrefix(f, "T:call:ledger/common.isKnownMalformedAddressTrailer(")
+		return isLenZeroFact(f) || strings.HasPrefix(f, "T:call:ledger/common.isKnownMalformedAddressTrailer(")
 	})
 	for i, v := range vt {
 		c.Check(v.OK, "address-trailing", key, shelleySucc[i].Pos(), "success only with no trailing bytes or a whitelisted trailer", "an address with arbitrary trailing bytes can decode successfully ("+v.Witness+")")
 	}
 	vm := c.mustPass(pf, shelleySucc, func(f string) bool {
-		return strings.HasPrefix(f, "len(") && strings.HasSuffix(f, ") <= 0") || f == nAtom+" == 1"
+		return isLenZeroFact(f) || f == nAtom+" == 1"
 	})
 	for i, v := range vm {
 		c.Check(v.OK, "address-trailing", key+":mainnet-only", shelleySucc[i].Pos(), "the trailer whitelist applies to mainnet only", "the malformed-trailer exemption is reachable for non-mainnet addresses ("+v.Witness+")")
@@ -409,4 +424,9 @@ func (c *Ctx) checkPointerVarint() {
 		}
 	}
 	c.Undecided("%s: the varint encoder is not in a form this checker can prove minimal or refute", key)
+}
+
+// isLenZeroFact: len(x) <= 0, len(x) == 0 or len(x) < 1.
+func isLenZeroFact(f string) bool {
+	return strings.HasPrefix(f, "len(") && (strings.HasSuffix(f, ") <= 0") || strings.HasSuffix(f, ") == 0") || strings.HasSuffix(f, ") < 1"))
 }
